@@ -13,14 +13,6 @@ def stepLineDddmp (ms : Mgrs) (line : String) : Mgrs × String :=
       | .ok m => (ms.insert id m, "ok " ++ showInts (sortBy (· ≤ ·) m.roots))
       | .error e => (ms, "err " ++ toString e)
     | _, _ => (ms, "err BAD-LINE")
-  | id :: "dddmp_load_fixed" :: fields =>
-    -- the repaired loader (see `DD/Dddmp.lean`), not the current code
-    match parseNat? id, parseDddmpFile fields with
-    | some id, some f =>
-      match loadDddmpFixed f with
-      | .ok m => (ms.insert id m, "ok " ++ showInts (sortBy (· ≤ ·) m.roots))
-      | .error e => (ms, "err " ++ toString e)
-    | _, _ => (ms, "err BAD-LINE")
   | _ :: "dddmp_eval" :: names :: fields =>
     -- truth tables of `evalFile` (the specification) for every node line and root entry
     match parseDddmpFile fields with
